@@ -29,6 +29,13 @@ def tableCommand (v : Variant) : Sexp → Option String
       match parseExpr e with
       | some e => showOpt (deserialise tbl (serialise v tbl e))
       | none => "err parse"
+  | .list (.atom "construct" :: .atom c :: vals) => some <|
+      match hexDec c, vals.mapM (fun v => match v with
+          | .list [.atom "e", e] => (parseExpr e).map Arg.e
+          | .list [.atom "a", a] => (parseAttr a).map Arg.a
+          | _ => none) with
+      | some c, some vs => showOpt (new tbl c vs)
+      | _, _ => "err parse"
   | .list [.atom "wfterm", e] => some <|
       match parseExpr e with
       | some e => if wfTerm tbl e then "true" else "false"
